@@ -101,7 +101,7 @@ def run_stream(ctx, r, idx):
 			ctx.count("expected:%s%s" % (e["kind"], (":" + e["cause"]) if "cause" in e else ""))
 			if e.get("ambiguous_budget"):
 				ctx.count("ambiguous_budget_bursts")
-			ctx.seen(hash((idx, b, j)))
+			ctx.seen(hash((ctx.shard[0], idx, b, j)))
 			if isinstance(res, str):
 				ctx.violation("outcome", {"history": log[-20:], "burst": trxd.brief(m), "sender": specs[s]["name"],
 					"recipient": specs[j]["name"], "budget_before": before,
